@@ -215,6 +215,9 @@ class Harness(object):
         f = getattr(self, 'op_' + kind)
         res = {}
         before = self.steps_executed
+        for o in self.oracles:
+            g = getattr(o, 'before_op', None)
+            if g: g(self, op)
         try:
             r = f(op)
             if r is not None: res['ret'] = r
